@@ -7,9 +7,9 @@ import hashlib, itertools
 import vlib, zckfmt
 from props import c02
 
-THEOREMS = ["C14_request_sequence_zstd_nodict_partial"]
+THEOREMS = ["C14_request_sequence_zstd_nodict_partial", "C14_request_sequence"]
 ASSUMPTIONS = [
-    "PARTIAL: the theorem covers every request sequence on unit-decoded (zstd) files without dictionary; files with a dictionary and uncompressed files are covered by the exhaustive / random request sequences of the run (model = code, code = generator's chunk data)",
+    "C14_request_sequence covers both compression types, with and without dictionary chunk; side condition (zstd only): no entry with 0 stored bytes declares a non-zero size",
     "model Read/CompRead.v is a hand transcription of the read path, tied by differential execution on request sequences",
     "H and zdecomp are parameters (OpenSSL / libzstd in the run)",
     "file reads are fault free (property C12); the header layer provides the header record (property C13)",
